@@ -76,6 +76,17 @@ CORPUS = [
 ]
 
 
+CORPUS.append(
+    # the owner deletes k, the observer sees the tombstone, the owner writes k again with the EMPTY value (equal to what a
+    # tombstone holds): the key is visible again and has to be announced
+    {"id": "corpus-empty-after-delete", "nodes": [{"id": H("a"), "addr": H("10.0.0.1:7000")}, {"id": H("b"), "addr": H("10.0.0.2:7000")}],
+     "ops": [{"op": "upsert", "n": 1, "k": H("k"), "v": H("v")}, {"op": "join", "a": 0, "b": 1},
+             {"op": "delete", "n": 1, "k": H("k")},
+             {"op": "send", "a": 0, "b": 1, "max": 1400}] + [{"op": "deliver", "i": 0, "max": 1400}] * 4 +
+            [{"op": "upsert", "n": 1, "k": H("k"), "v": H("")},
+             {"op": "send", "a": 0, "b": 1, "max": 1400}] + [{"op": "deliver", "i": 0, "max": 1400}] * 4})
+
+
 def conc_cases(rng, n):
     out = []
     for i in range(n):
